@@ -42,6 +42,10 @@ P_STAGES = [
     ["evalS", "eval2", "eval2"],
     ["eval2", "edit", "evalS", "eval2"],
     ["evalS", "evalS", "eval"],
+    # something the pipeline depends on changes between the restricted run and the full one
+    # (a variable edit keeps the process: the two evaluations are consecutive in one interpreter)
+    ["evalS", "edit", "eval2"],
+    ["eval2", "evalS", "edit", "eval2"],
 ]
 
 
